@@ -17,7 +17,7 @@ PROP = "C06"
 LEVEL = "proof"
 ASSUMPTIONS = [
     "proved for every reachable state of every well-formed configuration (manual and ICT-based control): a section is out of service only while it contains a failed line; once every line is repaired every section is in service and no controller lists a failed section (C06.out_of_service_only_with_reason / all_repaired_all_in_service); the normal configuration is a fixed point of a quiet increment; a sectioning timer runs out after exactly ceil(T/dt) quiet passes",
-    "PARTIAL: the remaining step to the full statement - that the breakers reclose, lines and disconnectors return to service and timers reach zero within the bound (ReturnsToNormal) - is stated in Lean and not proved; it is decided on every generated history of this run, on the model and on the implementation",
+    "proved for manual control (C06.returns_to_normal): from every reachable state without failed lines the normal configuration is reached within ceil(T/dt)+2 increments, for every configuration satisfying wfB and wfB2 (both evaluated by the model driver on every configuration extracted from a real system in this run) with T >= 0; under ICT-based control the time to normal depends on the communication history and is decided on every generated history of this run by the correspondence and the end-of-tail oracle",
 ]
 F = Fraction
 
@@ -51,7 +51,10 @@ def handler(case):
 def compare(case, m, i):
     if not m:
         return True
-    return [ctl.strip_ok(x) for x in m] == i and ctl.model_flags(m[-1])[2] == "1"
+    # the model ends in the normal configuration, and the hypotheses of C06.returns_to_normal (wfB, wfB2 of the
+    # configuration extracted from the real system; invJ of every state) hold as evaluated by the model driver
+    return ([ctl.strip_ok(x) for x in m] == i and ctl.model_flags(m[-1])[2] == "1"
+            and all(ctl.model_flags(x)[3:6] == "111" for x in m))
 
 
 def missing_devices(rng, spec, p=0.25):
